@@ -21,7 +21,10 @@ RULE = ('explicit-state BFS per signature: states are reference-model states '
         'the BFS history on a fresh real fdl.Config and applies one operation '
         'of the complete alphabet (get/set/del by name, index, negative index, '
         'VARARGS, slice; slices deduplicated per state by CPython normal form '
-        'x raw-form class); a state is distinct by model key.')
+        'x raw-form class); a state is distinct by model key; plus three *args '
+        'values on the smallest prefixes, and the spellings unit (one function '
+        'as plain function / bound method / classmethod / underlying function '
+        'configured in every order, reference inspect.signature).')
 ASSUMPTIONS = [
     'any Exception subclass is accepted where the statement says "raises"',
     'deleting an already-unset prefix slot may raise or be a no-op',
